@@ -45,10 +45,11 @@ func C08(run *core.Run) {
 	var mu sync.Mutex
 	recHist := map[string]int64{}
 	var points, ops, skipped, continued int64
-	wideEvery := int64(40)
+	wideEvery, heavyMax := int64(40), 8
 	if run.Thorough() {
-		wideEvery = 4
+		wideEvery, heavyMax = 4, 80
 	}
+	heavyDone := map[string]int{}
 	cfg := vsCfg(2, 1, "abcde", true, true, true, true, true, vsGenTail)
 	_, st := vsGenerateAndReplayCfg(run, cfg, nil, func(b *vsBehaviour, n int64, scratch string) {
 		last := b.Steps[len(b.Steps)-1]
@@ -67,6 +68,26 @@ func C08(run *core.Run) {
 			if !rw.skipped {
 				recHist[fmt.Sprintf("wide %s/%s: %d journal record(s)", last.A, last.R, rw.records)]++
 				points += int64(rw.points)
+			}
+			mu.Unlock()
+		}
+		mu.Lock()
+		doHeavy := last.R == "ok" && (n+run.Seed)%7 == 0 && heavyDone[last.A] < heavyMax
+		if doHeavy {
+			heavyDone[last.A]++
+		}
+		mu.Unlock()
+		if doHeavy {
+			// patches of more than a megabyte: 400 keys of 4 KiB per abstract key (a momentum full of data-carrying blocks)
+			heavy := vsConc{Name: "heavy-400x4k", Keys: vsConcs[0].Keys, Width: 400, Heavy: 4000}
+			rh, err := vsCrashReplay(run, heavy, b, scratch)
+			if err != nil {
+				core.Fatal("crash replay infrastructure (heavy): %v", err)
+			}
+			mu.Lock()
+			if !rh.skipped {
+				recHist[fmt.Sprintf("heavy %s/%s: %d journal record(s)", last.A, last.R, rh.records)]++
+				points += int64(rh.points)
 			}
 			mu.Unlock()
 		}
